@@ -251,7 +251,7 @@ def float_safe(case):
             for T in partial:
                 r = T / N
                 if r == thr:
-                    if not sq_exact:
+                    if T != 0 and not sq_exact:          # 0/normsq is 0 whatever normsq is
                         return False, "exact boundary with a rounded norm"
                 elif abs(r - thr) <= Fraction(1, 10 ** 9) * max(r, thr):
                     return False, "near boundary"
@@ -267,6 +267,63 @@ def float_safe(case):
         if not all(fexact(x * tot_sum) for x in s):
             return False, "new_s*norm_old rounds"
     return True, ""
+
+
+def coq_eval_files(ctx, imports, exprs, prelude="", shard=20, timeout=900, jobs=14):
+    """lib.coq_eval with the coqc output redirected to files: lib.coq_eval polls the processes without
+    draining their stdout pipes, so a shard printing more than the pipe buffer (64 KiB) blocks forever.
+    Same file format, same parser."""
+    import re
+    import subprocess
+    from concurrent.futures import ThreadPoolExecutor
+    import lib
+    if not exprs:
+        return []
+    ctx.ncoq += 1
+    d = ctx.work / f"eval{ctx.ncoq}"
+    d.mkdir()
+    shards = [exprs[i:i + shard] for i in range(0, len(exprs), shard)]
+    files = []
+    for k, sh in enumerate(shards):
+        f = d / f"cases_{k}.v"
+        body = [lib.COQ_HEADER, imports, prelude, "Open Scope Z_scope."]
+        for j, e in enumerate(sh):
+            body.append(f"Definition case_{j} := {e}.")
+            body.append(f"Eval vm_compute in case_{j}.")
+        f.write_text("\n".join(body) + "\n")
+        files.append(f)
+
+    def one(k):
+        f = files[k]
+        with open(f.with_suffix(".out"), "w") as so, open(f.with_suffix(".err"), "w") as se:
+            try:
+                p = subprocess.run(["timeout", str(timeout), "coqc", "-Q", str(lib.THEORIES), "PTN", "-o",
+                                    str(f.with_suffix(".vo")), str(f)], stdout=so, stderr=se, timeout=timeout + 30)
+                rc = p.returncode
+            except subprocess.TimeoutExpired:
+                rc = 124
+        return rc, f.with_suffix(".out").read_text(), f.with_suffix(".err").read_text()
+    with ThreadPoolExecutor(max_workers=jobs) as ex:
+        results = list(ex.map(one, range(len(shards))))
+    values = []
+    for k, sh in enumerate(shards):
+        rc, out, err = results[k]
+        if rc != 0:
+            values += [RuntimeError(f"coqc failed on {files[k]} rc={rc}: {err[-1500:]}")] * len(sh)
+            continue
+        chunks = re.split(r"^\s*= ", out, flags=re.M)[1:]
+        if len(chunks) != len(sh):
+            values += [RuntimeError(f"coq output count mismatch {len(chunks)} vs {len(sh)} in {files[k]}")] * len(sh)
+            continue
+        for ch in chunks:
+            idx = ch.rfind("\n     : ")
+            if idx < 0:
+                idx = ch.rfind(" : ")
+            try:
+                values.append(lib.parse_coq(ch[:idx]))
+            except Exception as e:  # noqa
+                values.append(RuntimeError(f"parse error: {e}: {ch[:200]}"))
+    return values
 
 
 def nonincreasing(alphabet, length):
@@ -680,7 +737,7 @@ class C10(Prop):
             pstr = f"(P {bond} {rel} {tot} {coq_bool(c['renorm'])} false {coq_bool(c['sum_renorm'])})"
             exprs.append(coq_list([f"klen {pstr} {coq_list([Fraction(x) for x in ob['calls'][j][0]], coq_q)}" for j in rows]))
             owners.append(("tree", (i, rows)))
-        vals = coq_eval(ctx, IMPORTS, exprs, prelude=PRELUDE, shard=ctx.scale(12, 24))
+        vals = coq_eval_files(ctx, IMPORTS, exprs, prelude=PRELUDE, shard=ctx.scale(10, 20))
         for (kind, own), v in zip(owners, vals):
             if kind == "sv":
                 if isinstance(v, BaseException) or len(v) != len(own):
